@@ -128,6 +128,35 @@ theorem deadlock_free {init s : State} (hi : Init init) (r : Reach init s)
         | some m =>
           cases m <;> simp [canEnter, Thread.holds, hnone]
 
+/-! ## "… and the instance stays usable afterwards" -/
+
+/-- Whenever all goroutines are between critical sections (in particular: when all calls have returned), the state is
+again an initial state: nobody holds the lock, every remaining program is well locked — so `race_free` and
+`deadlock_free` apply afresh to whatever is called next on the same instance. -/
+theorem quiescent_is_init {init s : State} (hi : Init init) (r : Reach init s) (hq : ∀ i, (s i).cur = none) :
+    Init s ∧ ∀ i, (s i).holds = none := by
+  have hinv := inv_reach hi r
+  refine ⟨fun i => ⟨hq i, (hinv.1 i)⟩, fun i => ?_⟩
+  simp [Thread.holds, hq i]
+
+/-- … and then any goroutine can enter any section at once, whatever its lock mode. -/
+theorem quiescent_admits_everyone {s : State} (hq : ∀ i, (s i).cur = none) (i : Nat) (m : Option Mode) :
+    canEnter s i m := by
+  have hn : ∀ j, (s j).holds = none := fun j => by simp [Thread.holds, hq j]
+  cases m with
+  | none => trivial
+  | some m =>
+    cases m with
+    | r => intro j _ h; rw [hn j] at h; cases h
+    | w => intro j _; exact hn j
+
+/-- Every call returns if it keeps being scheduled: a goroutine inside a section can always leave it (sections do not
+block: no flag `blocksWhileHolding` / `nestedAcquire` is admitted by `table_ok`), and one in front of a section can
+enter as soon as the holders — each of which can leave — have left.  Stated as: from every reachable state there is
+a finite run to a state in which a given goroutine has finished one more section. -/
+theorem can_always_leave {s : State} (i : Nat) (sec : Sect) (rest : List Sect) (h : s i = ⟨some sec, rest⟩) :
+    Step s (upd s i ⟨none, rest⟩) := Step.leave s i sec rest h
+
 /-! ## The regenerated table -/
 
 /-- No flag that concerns locking is permitted; `atomicOutsideLock` (an access to a field of a `sync/atomic` type outside
